@@ -198,6 +198,27 @@ def run_item(item):
                         viol("C20|not-equivariant|fno", "%s: %s" % (cfg, bad))
                     else:
                         res["outcomes"].append(cfg)
+                    # the same network over TWO named input fields (f, g), fed with the fields stored in the other order:
+                    # still shift-equivariant along every axis and equal to the output for the declared order
+                    try:
+                        torch.manual_seed(7 + layers)
+                        net2 = tp.models.FNO(Space({"f": 1, "g": 1}), Space({"u": 1}), fourier_layers=layers, hidden_channels=3,
+                                             fourier_modes=fm, skip_connections=skip, linear_connections=lin, **kw)
+                        Xs = X[: min(len(X), 12)]
+                        fwd = lambda z: net2(Points(z, Space({"f": 1, "g": 1}))).as_tensor
+                        rev = lambda z: net2(Points(torch.flip(z, dims=(-1,)), Space({"g": 1, "f": 1}))).as_tensor
+                        with torch.no_grad():
+                            a_, b_ = fwd(Xs), rev(Xs)
+                        if a_.shape != b_.shape or not torch.allclose(a_, b_, rtol=1e-5, atol=1e-6):
+                            viol("C20|fno-variable-order", "%s: the fields (f, g) stored as (g, f) give output shape %s / other values than in the declared order (shape %s)" % (
+                                cfg, tuple(b_.shape), tuple(a_.shape)))
+                        else:
+                            bad2, cnt2 = equivariance(rev, Xs, shape)
+                            res["evals"] += cnt2 * len(Xs)
+                            if bad2:
+                                viol("C20|not-equivariant|fno-reordered", "%s (fields stored as g, f): %s" % (cfg, bad2))
+                    except Exception as e:
+                        viol("C20|error|%s|fno-reordered" % type(e).__name__, "%s with fields (g, f) raised %s: %s" % (cfg, type(e).__name__, str(e)[:120]))
     else:
         # resolution consistency of one 1-D layer for band-limited inputs
         for N in (4, 5, 6, 8):
